@@ -201,6 +201,33 @@ func runC11(o *opts) (*summary, error) {
 		w.put(rec, "rigS", fmt.Sprintf("S%d", i))
 	}
 
+	// ---- Rig L, shared fixed bind port: two discoveries overlap (the second waits its turn for the port); each
+	// controller answers 0.5 T after being asked - well inside the window of the call that asked, however long that
+	// call had to queue. Sequential scenarios (one fixed port), each repeated when its clockwork was disturbed.
+	if port := o.extraArg("port"); port != "" && port != "0" {
+		fixed := 0
+		fmt.Sscanf(port, "%d", &fixed)
+		nO := 4
+		if thorough {
+			nO = 40
+		}
+		tick := 40 * time.Millisecond
+		T := 4
+		for i := 0; i < nO; i++ {
+			for attempt := 0; attempt < 4; attempt++ {
+				jm := startJitterMonitor()
+				recs := overlappedDiscovery(rng, lt, fixed, T, tick, 0.2+0.15*float64(i%4))
+				jm.stop()
+				if jm.max() <= int64(tick/time.Microsecond)*15/100 {
+					for j, r := range recs {
+						w.put(r, "rigL-overlap", fmt.Sprintf("O%d/%d", i, j))
+					}
+					break
+				}
+			}
+		}
+	}
+
 	// ---- Rig L: the real Broadcast() against a farm that answers with a scripted multiset well inside the
 	// window (and, afterwards, a late datagram that must neither appear nor disturb the next call)
 	nL := 24
@@ -253,6 +280,72 @@ func runC11(o *opts) (*summary, error) {
 	s := w.close()
 	s.Extra = map[string]any{"rigL_disturbed": disturbed}
 	return s, nil
+}
+
+// overlappedDiscovery: clients A and B share one fixed bind port; B starts `lag` x T after A and therefore queues for
+// the port until A's window is over; the farm answers every request 0.5 T after it arrived
+func overlappedDiscovery(rng *rand.Rand, lt *layoutTables, fixed int, T int, tick time.Duration, lag float64) []M {
+	bc := listenUDP()
+	defer bc.Close()
+	timeout := time.Duration(T) * tick
+	replies := make(chan []byte, 4)
+	go func() {
+		buf := make([]byte, 2048)
+		for n := 0; ; n++ {
+			_, src, err := bc.ReadFromUDP(buf)
+			if err != nil {
+				return
+			}
+			b := discoveryDatagram(rng, lt, "valid2", nil)
+			replies <- b
+			go func() {
+				time.Sleep(timeout / 2)
+				bc.WriteToUDP(b, src)
+			}()
+		}
+	}()
+	cfg := clientCfg{Broadcast: udpAddrPort(bc).String()}
+	bind := types.BindAddr{AddrPort: netip.AddrPortFrom(netip.AddrFrom4([4]byte{127, 0, 0, 1}), uint16(fixed))}
+	mk := func() uhppote.IUHPPOTE {
+		return uhppote.NewUHPPOTE(bind, types.BroadcastAddr{AddrPort: udpAddrPort(bc)}, types.ListenAddr{}, timeout, nil, false)
+	}
+	ua, ub := mk(), mk()
+	type out struct {
+		ret M
+	}
+	run := func(u uhppote.IUHPPOTE, ch chan M) {
+		var v any
+		var err error
+		if p, msg := guard(func() { v, err = u.GetDevices() }); p {
+			ch <- M{"t": "panic", "msg": msg}
+		} else {
+			ch <- projRet(v, err)
+		}
+	}
+	ca, cb := make(chan M, 1), make(chan M, 1)
+	go run(ua, ca)
+	time.Sleep(time.Duration(float64(timeout) * lag))
+	go run(ub, cb)
+	ra, rb := <-ca, <-cb
+	var ba, bb []byte
+	select {
+	case ba = <-replies:
+	default:
+	}
+	select {
+	case bb = <-replies:
+	default:
+	}
+	mkrec := func(ret M, b []byte, who string) M {
+		delivered := []any{}
+		if b != nil {
+			delivered = append(delivered, M{"b": ints(b), "keep": true})
+		}
+		return M{"op": "GetDevices", "a": M{"serial": u32(0)}, "sent": []any{}, "route": M{"m": "none"}, "ncalls": 1, "delivered": delivered,
+			"ret": ret, "render": M{"string": "ok", "json": "ok"}, "cfg": projCfgRouted(cfg), "classes": []string{"overlap-" + who}, "rig": "L", "asked": b != nil}
+	}
+	time.Sleep(timeout / 2) // let the port settle before the next scenario
+	return []M{mkrec(ra, ba, "first"), mkrec(rb, bb, "second")}
 }
 
 func discoveryScenario(i int, seq []string, seed int64, lt *layoutTables, T int, tick time.Duration) M {
